@@ -105,3 +105,27 @@
   requires self.ro,
   ensures false, // [C09]
 //@@end
+
+// ---- raw accessors the handles are built on (their safety obligations are the preconditions) ---------------------------
+//@@fn file=allocator.rs scope="%SCOPE%" name=get_pointer xlate=plain props=C15
+//@subst /-> \(r: \*const u8\)/ => -> (r: MutPtr)
+//@subst /self\.raw_ptr\(\)\.add\((.+?)\)/ => self.mut_ptr_at(\1)
+//@subst /return self\.raw_ptr\(\);/ => return self.mut_ptr_at(0);
+//@contract
+  ensures r.off@ == offset as int, // [C15]
+//@@end
+//@@fn file=allocator.rs scope="%SCOPE%" name=get_bytes xlate=plain props=C15
+//@subst /return &\[\];/ => return empty_slice();
+//@subst /core::slice::from_raw_parts\((.+?), (.+?)\)/ => self.mem_slice_ptr(\1, \2)
+//@contract
+  requires offset as int + size as int <= self.mem@.len(), // the caller's safety obligation
+  ensures r@ =~= self.mem@.subrange(offset as int, offset as int + size as int), // [C15]
+//@@end
+//@@fn file=allocator.rs scope="%SCOPE%" name=get_bytes_mut xlate=plain props=C15,C09
+//@subst /-> \(r: &mut \[u8\]\)/ => -> (r: MutWin)
+//@subst /return &mut \[\];/ => return MutWin::empty();
+//@subst /core::slice::from_raw_parts_mut\((.+?), (.+?)\)/ => MutWin::at(\1, \2)
+//@contract
+  requires offset as int + size as int <= self.mem@.len(), size > 0 ==> !self.ro, // the caller's safety obligation; panics on a read-only arena
+  ensures r.n@ == size as int, size > 0 ==> r.lo@ == offset as int, // [C15]
+//@@end
